@@ -386,7 +386,7 @@ func TestC15(t *testing.T) {
 	// the interleaving part
 	concBudget := 60 * time.Second
 	if run.Thorough() {
-		concBudget = 6 * time.Minute
+		concBudget = 9 * time.Minute
 	}
 	cc := runConc(run, time.Now().Add(concBudget), st)
 	caps = append(caps, cc.Caps...)
